@@ -1,12 +1,12 @@
 SPECIFICATION Spec
 CONSTANTS
-  Design = "repaired"
+  Design = "explicit_last"
   InvalidMult = 2
-  MaxRank = 3
-  Checks = 2
+  MaxRank = 1
+  Checks = 1
   NoDeadline = FALSE
   Files = {"f1", "f2"}
   Less <- MCLess
   BehSel <- BehSelCore
-INVARIANTS NoViolation C01_Real C01_NoPhantom C01_NotFlaky C02_NoLost C09_Work C09_FailNow C05_Smaller
+INVARIANTS NoViolation
 CHECK_DEADLOCK FALSE
